@@ -16,9 +16,9 @@ func init() {
 		ID: "C03", Bubble: true, Run: runC03, QuickRuns: 1500,
 		Rule: "one run = lookup or predicate partition strategy with 1..4 partitions (fractions k/32, sum <= 1, duplicate predicates for first-match), total limit 1..64, and a seeded history of TryAcquire (known / unknown / non-matching keys), Release, SetLimit (incl. <= 0), AddPartition and RemovePartition with tokens outstanding; sequential mode: lock-step equality of every result and of BusyCount / Limit / BinBusyCount / BinLimit with an executable reference gate (admitted iff total < L or bin < max(1, ceil(L x fraction)) of the current L); concurrent mode: 2..4 tasks under a seeded schedule, history checked with porcupine against the same gate; " +
 			"non-trivial = some request was refused or borrowed beyond its share, and (sequential) a partition was added/removed or the limit changed with tokens outstanding; distinct = distinct event hashes / choice tapes",
-		Real:       []string{"strategy.LookupPartitionStrategy", "strategy.PredicatePartitionStrategy", "strategy.LookupPartition", "strategy.PredicatePartition", "strategy/matchers"},
-		Stubs:      []string{"none (empty metric registry)"},
-		FaultKinds: []string{"F-part", "F-limit", "F-preempt"},
+		Real:        []string{"strategy.LookupPartitionStrategy", "strategy.PredicatePartitionStrategy", "strategy.LookupPartition", "strategy.PredicatePartition", "strategy/matchers"},
+		Stubs:       []string{"none (empty metric registry)"},
+		FaultKinds:  []string{"F-part", "F-limit", "F-preempt"},
 		Assumptions: []string{"fractions are dyadic (k/32) so ceil(L x fraction) is unambiguous in floating point"},
 	})
 }
@@ -463,16 +463,16 @@ func runC03Concurrent(r *Run, sut *partSUT, g *refGate, specs []partSpec) {
 	nTasks := 2 + t.Intn(3, "tasks")
 	keys := []string{"a", "b", "c", "zz"}
 	type histOp struct {
-		op  *OpRec
-		in  pgIn
+		op *OpRec
+		in pgIn
 	}
 	var hist []*histOp
 	for i := 0; i < nTasks; i++ {
 		rounds := 1 + t.Intn(4, "rounds")
 		type rd struct {
-			key   string
-			set   bool
-			v     int
+			key string
+			set bool
+			v   int
 		}
 		var rds []rd
 		for k := 0; k < rounds; k++ {
